@@ -1,10 +1,754 @@
 package main
 
-import "verifharness/hx"
+// Reference broker: the specification-level oracle of the broker properties, written from the
+// property texts (MQTT 3.1.1) and independent of the library and of the Coq model.  It predicts,
+// event by event, the packets every connection must receive, and reports every difference with
+// the id of the property it falls under.  Histories that touch a listed finding are tagged so.
 
-// placeholder: replaced below by the reference broker
-type refBroker struct{}
+import (
+	"bytes"
+	"fmt"
+	"sort"
+	"strings"
 
-func newRef() *refBroker { return &refBroker{} }
+	"verifharness/hx"
+	"verifharness/mq"
+)
 
-func (r *refBroker) check(ev hx.Group, obs map[int][][]byte, calls []call) []string { return nil }
+type rmsg struct {
+	payload string
+	qos     int
+}
+
+type rpub struct {
+	topic   string
+	payload []byte
+	qos     int
+	retain  bool
+}
+
+type rconn struct {
+	cid   string
+	clean bool
+	will  *rpub
+	subs  map[string]int // filter -> granted QoS
+	q2    map[int]rpub   // open incoming QoS 2 exchanges
+	q2seq []int          // their order of arrival
+	live  bool
+	inflight map[int]int // QoS>0 PUBLISH identifiers delivered to this connection and not acknowledged
+}
+
+type q2state struct {
+	q2    map[int]rpub
+	q2seq []int
+}
+
+type refBroker struct {
+	conns    map[int]*rconn
+	sessQ2   map[string]q2state // open QoS 2 exchanges are session state (CleanSession=0)
+	sessions map[string]map[string]int
+	retained map[string]rmsg
+	inproc   map[int]map[string]int
+	emptyLvl bool // an empty topic level occurred: finding F7
+	f18      bool // a PUBREL arrived out of order: finding F18
+	closed   bool
+}
+
+func newRef() *refBroker {
+	return &refBroker{conns: map[int]*rconn{}, sessQ2: map[string]q2state{}, sessions: map[string]map[string]int{}, retained: map[string]rmsg{}, inproc: map[int]map[string]int{}}
+}
+
+// ---------- section 4.7 ----------
+
+func validFilter(f string) bool {
+	if f == "" {
+		return false
+	}
+	ls := strings.Split(f, "/")
+	for i, l := range ls {
+		if strings.ContainsAny(l, "#+") && len(l) != 1 {
+			return false
+		}
+		if l == "#" && i != len(ls)-1 {
+			return false
+		}
+	}
+	return true
+}
+
+func hasSys(t string) bool {
+	for _, l := range strings.Split(t, "/") {
+		if strings.HasPrefix(l, "$") {
+			return true
+		}
+	}
+	return false
+}
+
+func hasEmpty(t string) bool {
+	for _, l := range strings.Split(t, "/") {
+		if l == "" {
+			return true
+		}
+	}
+	return false
+}
+
+func fmatch(f, t []string) bool {
+	switch {
+	case len(f) == 1 && f[0] == "#":
+		return true
+	case len(f) == 0 || len(t) == 0:
+		return len(f) == 0 && len(t) == 0
+	case f[0] == "+" || f[0] == t[0]:
+		return fmatch(f[1:], t[1:])
+	}
+	return false
+}
+
+func matches(f, t string) bool { return fmatch(strings.Split(f, "/"), strings.Split(t, "/")) }
+
+func min(a, b int) int {
+	if a < b {
+		return a
+	}
+	return b
+}
+
+// ---------- expectations ----------
+
+type want struct {
+	desc string // comparable description of a packet
+	prop string // property a mismatch falls under
+}
+
+type expectation struct {
+	conn  map[int][]want // per connection, as a multiset (order checked separately where specified)
+	close map[int]bool
+	calls []string
+	first map[int]string // the packet that must come first on a connection (SUBACK before retained)
+}
+
+func newExp() *expectation {
+	return &expectation{conn: map[int][]want{}, close: map[int]bool{}, first: map[int]string{}}
+}
+
+func descPub(t string, p []byte, q int, r bool) string {
+	return fmt.Sprintf("PUBLISH topic=%q payload=%x qos=%d retain=%v", t, p, q, r)
+}
+
+func (rb *refBroker) deliver(ex *expectation, m rpub, prop string) {
+	if m.retain {
+		if len(m.payload) == 0 {
+			delete(rb.retained, m.topic)
+		} else if !hasSys(m.topic) {
+			rb.retained[m.topic] = rmsg{string(m.payload), m.qos}
+		}
+	}
+	if hasSys(m.topic) {
+		return // the store refuses '$' topics by design: outside the properties' domain
+	}
+	var ids []int
+	for id, c := range rb.conns {
+		if c.live {
+			ids = append(ids, id)
+		}
+	}
+	sort.Ints(ids)
+	for _, id := range ids {
+		c := rb.conns[id]
+		for f, g := range c.subs {
+			if matches(f, m.topic) {
+				ex.conn[id] = append(ex.conn[id], want{descPub(m.topic, m.payload, min(m.qos, g), false), prop})
+			}
+		}
+	}
+	for s, subs := range rb.inproc {
+		for f, g := range subs {
+			if matches(f, m.topic) {
+				ex.calls = append(ex.calls, fmt.Sprintf("call sub=%d %s", s, descPub(m.topic, m.payload, min(m.qos, g), false)))
+			}
+		}
+	}
+}
+
+func (rb *refBroker) retainedFor(f string, g int) []rpub {
+	var res []rpub
+	for t, m := range rb.retained {
+		if matches(f, t) {
+			res = append(res, rpub{t, []byte(m.payload), min(m.qos, g), true})
+		}
+	}
+	return res
+}
+
+func (rb *refBroker) endConn(ex *expectation, id int, normal bool) {
+	c := rb.conns[id]
+	if c == nil || !c.live {
+		return
+	}
+	c.live = false
+	ex.close[id] = true
+	if !c.clean {
+		rb.sessions[c.cid] = c.subs
+		rb.sessQ2[c.cid] = q2state{c.q2, c.q2seq}
+	} else {
+		delete(rb.sessions, c.cid)
+		delete(rb.sessQ2, c.cid)
+	}
+	if !normal && c.will != nil {
+		rb.deliver(ex, *c.will, "C09")
+	}
+}
+
+// parse a CONNECT as far as the oracle needs it
+type connectInfo struct {
+	ok            bool // framing complete, type CONNECT, body parses
+	badLevel      bool
+	badFlags      bool
+	badID         bool
+	cid           string
+	clean         bool
+	will          *rpub
+	rest          []byte
+}
+
+func parseConnect(b []byte) connectInfo {
+	var ci connectInfo
+	p, rest, ok, err := mq.NextPacket(b)
+	if err != nil || !ok || mq.Type(p) != mq.CONNECT || p[0]&0xf != 0 {
+		return ci
+	}
+	ci.rest = rest
+	i := 1
+	for p[i] >= 0x80 {
+		i++
+	}
+	body := p[i+1:]
+	pos := 0
+	lp := func() ([]byte, bool) {
+		if pos+2 > len(body) {
+			return nil, false
+		}
+		n := int(body[pos])<<8 | int(body[pos+1])
+		if pos+2+n > len(body) {
+			return nil, false
+		}
+		pos += 2 + n
+		return body[pos-n : pos], true
+	}
+	name, ok1 := lp()
+	if !ok1 || pos+4 > len(body) {
+		return ci
+	}
+	level, flags := body[pos], body[pos+1]
+	pos += 4
+	want := map[byte]string{3: "MQIsdp", 4: "MQTT"}[level]
+	if want == "" || want != string(name) {
+		ci.ok, ci.badLevel = true, true
+		return ci
+	}
+	wq := int(flags>>3) & 3
+	if flags&1 != 0 || wq == 3 || (flags&4 == 0 && (wq != 0 || flags&32 != 0)) {
+		ci.ok, ci.badFlags = true, true
+		return ci
+	}
+	cid, ok2 := lp()
+	if !ok2 {
+		return ci
+	}
+	ci.cid, ci.clean = string(cid), flags&2 != 0
+	printable := true
+	for _, x := range cid {
+		if x < 0x20 || x > 0x7e {
+			printable = false
+		}
+	}
+	if (len(cid) == 0 && !ci.clean) || len(cid) > 32 || !printable {
+		ci.ok, ci.badID = true, true
+		return ci
+	}
+	if flags&4 != 0 {
+		wt, ok3 := lp()
+		wm, ok4 := lp()
+		if !ok3 || !ok4 {
+			return ci
+		}
+		ci.will = &rpub{string(wt), wm, wq, flags&32 != 0}
+	}
+	if flags&128 != 0 && pos < len(body) {
+		if _, ok := lp(); !ok {
+			return ci
+		}
+	}
+	if flags&64 != 0 && pos < len(body) {
+		if _, ok := lp(); !ok {
+			return ci
+		}
+	}
+	ci.ok = true
+	return ci
+}
+
+func (rb *refBroker) note(s string) {
+	if hasEmpty(s) {
+		rb.emptyLvl = true
+	}
+}
+
+// packets arriving on an accepted connection
+func (rb *refBroker) feed(ex *expectation, id int, b []byte) {
+	c := rb.conns[id]
+	for c != nil && c.live {
+		p, rest, ok, err := mq.NextPacket(b)
+		if err != nil {
+			rb.endConn(ex, id, false)
+			return
+		}
+		if !ok {
+			return
+		}
+		b = rest
+		add := func(desc, prop string) { ex.conn[id] = append(ex.conn[id], want{desc, prop}) }
+		switch mq.Type(p) {
+		case mq.PUBLISH:
+			pub, perr := mq.ParsePublish(p)
+			if perr != nil || strings.ContainsAny(pub.Topic, "#+") {
+				rb.endConn(ex, id, false)
+				return
+			}
+			rb.note(pub.Topic)
+			m := rpub{pub.Topic, pub.Payload, pub.QoS, pub.Retain}
+			switch pub.QoS {
+			case 0:
+				rb.deliver(ex, m, "C01")
+			case 1:
+				add(fmt.Sprintf("PUBACK id=%d", pub.PID), "C02")
+				rb.deliver(ex, m, "C01")
+			case 2:
+				add(fmt.Sprintf("PUBREC id=%d", pub.PID), "C02")
+				if _, open := c.q2[pub.PID]; !open {
+					c.q2[pub.PID] = m
+					c.q2seq = append(c.q2seq, pub.PID)
+				}
+			}
+		case mq.PUBREL:
+			pid, aerr := mq.ParseAck(p)
+			if aerr != nil {
+				rb.endConn(ex, id, false)
+				return
+			}
+			if m, open := c.q2[pid]; open {
+				if len(c.q2seq) > 0 && c.q2seq[0] != pid {
+					rb.f18 = true // released out of the order of arrival
+				}
+				rb.deliver(ex, m, "C02")
+				delete(c.q2, pid)
+				for i, x := range c.q2seq {
+					if x == pid {
+						c.q2seq = append(c.q2seq[:i], c.q2seq[i+1:]...)
+						break
+					}
+				}
+			}
+			add(fmt.Sprintf("PUBCOMP id=%d", pid), "C02")
+		case mq.PUBACK, mq.PUBCOMP:
+			pid, aerr := mq.ParseAck(p)
+			if aerr != nil {
+				rb.endConn(ex, id, false)
+				return
+			}
+			delete(c.inflight, pid)
+		case mq.PUBREC:
+			pid, aerr := mq.ParseAck(p)
+			if aerr != nil {
+				rb.endConn(ex, id, false)
+				return
+			}
+			add(fmt.Sprintf("PUBREL id=%d", pid), "C12")
+		case mq.SUBSCRIBE:
+			body := p[len(p)-bodyLen(p):]
+			if p[0]&0xf != 2 || len(body) < 2 {
+				rb.endConn(ex, id, false)
+				return
+			}
+			pid := int(body[0])<<8 | int(body[1])
+			body = body[2:]
+			var fs []string
+			var qs []int
+			for len(body) > 0 {
+				if len(body) < 2 {
+					rb.endConn(ex, id, false)
+					return
+				}
+				n := int(body[0])<<8 | int(body[1])
+				if len(body) < 2+n+1 {
+					rb.endConn(ex, id, false)
+					return
+				}
+				fs, qs = append(fs, string(body[2:2+n])), append(qs, int(body[2+n]))
+				body = body[2+n+1:]
+			}
+			if len(fs) == 0 {
+				rb.endConn(ex, id, false)
+				return
+			}
+			var codes []byte
+			var rets []rpub
+			for i, f := range fs {
+				rb.note(f)
+				if !validFilter(f) || qs[i] > 2 || hasSys(f) {
+					codes = append(codes, 0x80)
+					continue
+				}
+				g := min(qs[i], 2)
+				codes = append(codes, byte(g))
+				c.subs[f] = g
+				rets = append(rets, rb.retainedFor(f, g)...)
+			}
+			sa := fmt.Sprintf("SUBACK id=%d codes=%x", pid, codes)
+			add(sa, "C07")
+			if _, set := ex.first[id]; !set {
+				ex.first[id] = sa
+			}
+			for _, r := range rets {
+				add(descPub(r.topic, r.payload, r.qos, true), "C08")
+			}
+		case mq.UNSUBSCRIBE:
+			body := p[len(p)-bodyLen(p):]
+			if p[0]&0xf != 2 || len(body) < 2 {
+				rb.endConn(ex, id, false)
+				return
+			}
+			pid := int(body[0])<<8 | int(body[1])
+			body = body[2:]
+			n := 0
+			for len(body) > 0 {
+				if len(body) < 2 || len(body) < 2+(int(body[0])<<8|int(body[1])) {
+					rb.endConn(ex, id, false)
+					return
+				}
+				l := int(body[0])<<8 | int(body[1])
+				f := string(body[2 : 2+l])
+				rb.note(f)
+				delete(c.subs, f)
+				body = body[2+l:]
+				n++
+			}
+			if n == 0 {
+				rb.endConn(ex, id, false)
+				return
+			}
+			add(fmt.Sprintf("UNSUBACK id=%d", pid), "C07")
+		case mq.PINGREQ:
+			if len(p) != 2 || p[0]&0xf != 0 {
+				rb.endConn(ex, id, false)
+				return
+			}
+			add("PINGRESP", "C19")
+		case mq.DISCONNECT:
+			if len(p) != 2 || p[0]&0xf != 0 {
+				rb.endConn(ex, id, false)
+				return
+			}
+			rb.endConn(ex, id, true)
+			return
+		case mq.CONNECT, mq.CONNACK, mq.SUBACK, mq.UNSUBACK, mq.PINGRESP:
+			// a protocol violation by the client that the properties say nothing about: either ignoring
+			// it or ending the connection is accepted; the oracle follows the library (ignore) if the
+			// packet is well formed and ends the connection otherwise
+			if !clientPacketWellFormed(p) {
+				rb.endConn(ex, id, false)
+				return
+			}
+		default:
+			rb.endConn(ex, id, false)
+			return
+		}
+	}
+}
+
+func clientPacketWellFormed(p []byte) bool {
+	switch mq.Type(p) {
+	case mq.CONNECT:
+		return parseConnect(p).ok && !parseConnect(p).badLevel && !parseConnect(p).badFlags && !parseConnect(p).badID
+	case mq.UNSUBACK:
+		_, err := mq.ParseAck(p)
+		return err == nil
+	}
+	return mq.WellFormed(p) == nil
+}
+
+func bodyLen(p []byte) int {
+	v, mul := 0, 1
+	for i := 1; i <= 4 && i < len(p); i++ {
+		v += int(p[i]&0x7f) * mul
+		mul *= 128
+		if p[i] < 0x80 {
+			break
+		}
+	}
+	return v
+}
+
+func descOf(p []byte) string {
+	switch mq.Type(p) {
+	case mq.PUBLISH:
+		pub, err := mq.ParsePublish(p)
+		if err != nil {
+			return fmt.Sprintf("malformed PUBLISH %x", p)
+		}
+		return descPub(pub.Topic, pub.Payload, pub.QoS, pub.Retain)
+	case mq.PUBACK, mq.PUBREC, mq.PUBREL, mq.PUBCOMP, mq.UNSUBACK:
+		pid, err := mq.ParseAck(p)
+		if err != nil {
+			return fmt.Sprintf("malformed ack %x", p)
+		}
+		return fmt.Sprintf("%s id=%d", map[int]string{4: "PUBACK", 5: "PUBREC", 6: "PUBREL", 7: "PUBCOMP", 11: "UNSUBACK"}[mq.Type(p)], pid)
+	case mq.SUBACK:
+		pid, codes, err := mq.ParseSuback(p)
+		if err != nil {
+			return fmt.Sprintf("malformed SUBACK %x", p)
+		}
+		return fmt.Sprintf("SUBACK id=%d codes=%x", pid, codes)
+	case mq.CONNACK:
+		sp, code, err := mq.ParseConnack(p)
+		if err != nil {
+			return fmt.Sprintf("malformed CONNACK %x", p)
+		}
+		return fmt.Sprintf("CONNACK sp=%v code=%d", sp, code)
+	case mq.PINGRESP:
+		return "PINGRESP"
+	}
+	return fmt.Sprintf("unexpected packet %x", p)
+}
+
+// check predicts the observations of one event and compares
+func (rb *refBroker) check(ev hx.Group, obs map[int][][]byte, calls []call) []string {
+	ex := newExp()
+	skipPackets := false
+	switch ev[0] {
+	case 1:
+		id, authok, b := int(ev[1]), ev[2] != 0, gbytes(ev, 3)
+		ci := parseConnect(b)
+		switch {
+		case !ci.ok || ci.badFlags:
+			ex.close[id] = true
+		case ci.badLevel:
+			ex.conn[id] = []want{{"CONNACK sp=false code=1", "C11"}}
+			ex.close[id] = true
+		case ci.badID:
+			ex.conn[id] = []want{{"CONNACK sp=false code=2", "C11"}}
+			ex.close[id] = true
+		case !authok:
+			ex.conn[id] = []want{{"CONNACK sp=false code=4", "C11"}}
+			ex.close[id] = true
+		default:
+			c := &rconn{cid: ci.cid, clean: ci.clean || ci.cid == "", will: ci.will, subs: map[string]int{}, q2: map[int]rpub{}, live: true, inflight: map[int]int{}}
+			sp := false
+			if !c.clean {
+				if old, ok := rb.sessions[c.cid]; ok {
+					sp = true
+					for f, g := range old {
+						c.subs[f] = g
+					}
+					if q, ok := rb.sessQ2[c.cid]; ok {
+						c.q2, c.q2seq = q.q2, q.q2seq
+					}
+				}
+			} else {
+				delete(rb.sessions, c.cid)
+				delete(rb.sessQ2, c.cid)
+			}
+			if c.cid == "" {
+				c.cid = fmt.Sprintf("\x00anon%d", id)
+			}
+			if !c.clean {
+				rb.sessions[c.cid] = c.subs
+			}
+			rb.conns[id] = c
+			ca := fmt.Sprintf("CONNACK sp=%v code=0", sp)
+			ex.conn[id] = []want{{ca, "C10"}}
+			ex.first[id] = ca
+			rb.feed(ex, id, ci.rest)
+		}
+	case 2:
+		rb.feed(ex, int(ev[1]), gbytes(ev, 2))
+	case 3:
+		rb.endConn(ex, int(ev[1]), false)
+	case 4:
+		s, q, f := int(ev[1]), int(ev[2]), string(gbytes(ev, 3))
+		rb.note(f)
+		if validFilter(f) && q <= 2 && !hasSys(f) {
+			if rb.inproc[s] == nil {
+				rb.inproc[s] = map[string]int{}
+			}
+			rb.inproc[s][f] = q
+			for _, r := range rb.retainedFor(f, q) {
+				ex.calls = append(ex.calls, fmt.Sprintf("call sub=%d %s", s, descPub(r.topic, r.payload, r.qos, true)))
+			}
+		}
+	case 5:
+		s, f := int(ev[1]), string(gbytes(ev, 2))
+		if rb.inproc[s] != nil {
+			delete(rb.inproc[s], f)
+		}
+	case 6:
+		pub, err := mq.ParsePublish(gbytes(ev, 1))
+		if err == nil && !strings.ContainsAny(pub.Topic, "#+") {
+			rb.note(pub.Topic)
+			rb.deliver(ex, rpub{pub.Topic, pub.Payload, pub.QoS, pub.Retain}, "C01")
+		}
+	case 8:
+		b := gbytes(ev, 4)
+		t := string(b[:ev[3]])
+		if t != "" && !strings.ContainsAny(t, "#+") {
+			rb.note(t)
+			rb.deliver(ex, rpub{t, b[ev[3]:], int(ev[1]), ev[2] != 0}, "C01")
+		}
+	case 7:
+		var ids []int
+		for id := range rb.conns {
+			ids = append(ids, id)
+		}
+		sort.Ints(ids)
+		for _, id := range ids {
+			rb.endConn(ex, id, false)
+		}
+		rb.closed = true
+		skipPackets = true // deliveries race with the closing of their connection during Server.Close
+	}
+
+	// ---------- compare ----------
+	var fails []string
+	tag := func(prop, msg string) string {
+		switch {
+		case rb.emptyLvl:
+			return "empty-level: (" + prop + ") " + msg
+		case rb.f18 && (prop == "C02" || prop == "C01"):
+			return "F18-pubrel-order: (" + prop + ") " + msg
+		}
+		return prop + ": " + msg
+	}
+	ids := map[int]bool{}
+	for id := range obs {
+		ids[id] = true
+	}
+	for id := range ex.conn {
+		ids[id] = true
+	}
+	for id := range ex.close {
+		ids[id] = true
+	}
+	for id := range ids {
+		var got []string
+		closed := false
+		for _, p := range obs[id] {
+			if p == nil {
+				closed = true
+				continue
+			}
+			if len(p) > 0 && (p[0] == 0xff || p[0] == 0xfe) && mq.Type(p) == 15 {
+				fails = append(fails, tag("C17", fmt.Sprintf("the stream written to connection %d is not a sequence of whole MQTT packets: %x", id, p)))
+				continue
+			}
+			if err := mq.WellFormed(p); err != nil {
+				prop := "C17"
+				if mq.Type(p) == mq.PUBLISH {
+					if pub, e2 := mq.ParsePublish(p); e2 == nil && pub.QoS > 0 && pub.PID == 0 {
+						prop = "C12"
+					}
+				}
+				fails = append(fails, tag(prop, fmt.Sprintf("connection %d received a malformed packet %x: %v", id, p, err)))
+			}
+			got = append(got, descOf(p))
+			// identifiers of unacknowledged PUBLISH packets in flight to this connection (finding F17)
+			if mq.Type(p) == mq.PUBLISH {
+				if pub, err := mq.ParsePublish(p); err == nil && pub.QoS > 0 {
+					if c := rb.conns[id]; c != nil {
+						if c.inflight[pub.PID] > 0 {
+							fails = append(fails, fmt.Sprintf("F17-forwarded-id: (C12) connection %d holds two unacknowledged PUBLISH packets with packet identifier %d", id, pub.PID))
+						}
+						c.inflight[pub.PID]++
+					}
+				}
+			}
+		}
+		if skipPackets {
+			got = nil
+		}
+		if ex.close[id] != closed && !(ev[0] == 3 && id == int(ev[1])) {
+			if ex.close[id] {
+				fails = append(fails, tag("C05", fmt.Sprintf("connection %d should have been closed by the broker and was not", id)))
+			} else {
+				fails = append(fails, tag("C05", fmt.Sprintf("connection %d was closed by the broker although nothing it did calls for that", id)))
+			}
+		}
+		if skipPackets {
+			continue
+		}
+		// multiset comparison
+		wantDesc := map[string]int{}
+		prop := map[string]string{}
+		for _, w := range ex.conn[id] {
+			wantDesc[w.desc]++
+			prop[w.desc] = w.prop
+		}
+		for _, g := range got {
+			wantDesc[g]--
+		}
+		var missing, extra []string
+		pm := "C01"
+		for d, n := range wantDesc {
+			for ; n > 0; n-- {
+				missing = append(missing, d)
+				pm = prop[d]
+			}
+			for ; n < 0; n++ {
+				extra = append(extra, d)
+			}
+		}
+		if len(missing)+len(extra) > 0 {
+			sort.Strings(missing)
+			sort.Strings(extra)
+			if len(missing) == 0 {
+				pm = classify(extra[0])
+			}
+			fails = append(fails, tag(pm, fmt.Sprintf("connection %d: missing %v, unexpected %v (received %v)", id, missing, extra, got)))
+		} else if f, ok := ex.first[id]; ok && len(got) > 0 && got[0] != f {
+			fails = append(fails, tag(classify(f), fmt.Sprintf("connection %d: %s must come first, received %v", id, f, got)))
+		}
+	}
+	// in-process calls
+	var gotCalls []string
+	for _, c := range calls {
+		gotCalls = append(gotCalls, fmt.Sprintf("call sub=%d %s", c.sub, descPub(c.topic, c.payload, int(c.flags>>1)&3, c.flags&1 != 0)))
+	}
+	sort.Strings(gotCalls)
+	sort.Strings(ex.calls)
+	if strings.Join(gotCalls, "|") != strings.Join(ex.calls, "|") {
+		p := "C01"
+		if ev[0] == 4 {
+			p = "C08"
+		}
+		fails = append(fails, tag(p, fmt.Sprintf("in-process subscribers were called with %v, expected %v", gotCalls, ex.calls)))
+	}
+	_ = bytes.Equal
+	return fails
+}
+
+func classify(desc string) string {
+	switch {
+	case strings.HasPrefix(desc, "SUBACK"), strings.HasPrefix(desc, "UNSUBACK"):
+		return "C07"
+	case strings.HasPrefix(desc, "CONNACK"):
+		return "C11"
+	case strings.HasPrefix(desc, "PUBACK"), strings.HasPrefix(desc, "PUBREC"), strings.HasPrefix(desc, "PUBCOMP"):
+		return "C02"
+	case strings.HasPrefix(desc, "PUBREL"):
+		return "C12"
+	case strings.Contains(desc, "retain=true"):
+		return "C08"
+	}
+	return "C01"
+}
